@@ -210,7 +210,7 @@ def host_label(i):
     return 'host%d.example' % i
 
 
-def build_world(archs, port=22):
+def build_world(archs, port=22, world_kw=None):
     """archs: list of archetype names, position i served at hostname host<i>.example."""
     servers, resolver, faults = {}, {}, {}
     for i, a in enumerate(archs):
@@ -223,7 +223,7 @@ def build_world(archs, port=22):
         servers[(ip, port)] = s
         resolver[h] = [(int(socket.AF_INET), ip)]
         faults.update(getattr(s, '_planned', {}))
-    return vnet.World(servers=servers, resolver=resolver, faults=faults)
+    return vnet.World(servers=servers, resolver=resolver, faults=faults, **(world_kw or {}))
 
 
 _tf_counter = [0]
@@ -237,9 +237,9 @@ def targets_file(lines):
     return p
 
 
-def run_multi(archs, threads, fmt='text', prefix=(), gate_kinds=('connect',), policy=None, extra=()):
+def run_multi(archs, threads, fmt='text', prefix=(), gate_kinds=('connect',), policy=None, extra=(), world_kw=None):
     """-> (result, scheduler).  Output for position i is labelled host<i>.example."""
-    w = build_world(archs)
+    w = build_world(archs, world_kw=world_kw)
     tf = targets_file([host_label(i) for i in range(len(archs))])
     argv = ['-n', '--skip-rate-test'] + (['-j'] if fmt == 'json' else []) + list(extra)
     if policy:
